@@ -303,7 +303,7 @@ def gen_batch(rng, topo, k):
             cands = [m for m in modes[ttype] if m[1] <= spacing]
             br = max([m[2] for m in cands], default=100e9)
         nch = rng.choice([None] + [3, 5, 8, 8, 12, 16, 20] * 2)
-        power = rng.choice([None, None, 1e-3, 2e-3, 0.5e-3, 0.0005011872336272725, 1.3e-3])
+        power = rng.choice([None, None, 1e-3, 2e-3, 0.5e-3, 0.0005011872336272725, 1.3e-3, 5.888436553555889e-05, 1.2345e-4])
         nb = rng.choice([1, 1, 1, 2, 2, 3, 5])
         # whole and fractional numbers of Gbit/s, below / at / above a multiple of the bit rate
         bw = rng.choice([br * nb, br * nb, br * nb - 50e9 if br * nb > 50e9 else br * nb, 37.5e9 * nb,
@@ -1211,6 +1211,17 @@ def batch_oracle(case, drv):
                     fails.append(('csv_path', f'{o["id"]}'))
                 if (row['reversed path SNR-0.1nm (min)'] != '') != bool(o['bidir']):
                     fails.append(('csv_reverse', f'{o["id"]}: reversed columns vs bidir={o["bidir"]}'))
+                pw = metric_value(pp['path-metric'], 'reference_power')
+                if isinstance(pw, (int, float)) and pw > 0 and row.get('input power (dBm)', '') != '' \
+                        and 'input power (dBm)' not in csv_skips(resp, case['eq']):
+                    want = round(10 * math.log10(pw) + 30, 2)
+                    try:
+                        got = float(row['input power (dBm)'])
+                    except ValueError:
+                        got = None
+                    if got is None or abs(got - want) > 1e-9:
+                        fails.append(('csv_input_power', f'{o["id"]}: the response states reference_power {pw!r} W = {want} dBm, '
+                                                         f'the CSV says input power {row["input power (dBm)"]} dBm'))
     elif drv['csv_exc']:
         fails.append(('csv_exception', drv['csv_exc']))
     return fails
